@@ -238,7 +238,7 @@ func (p *Pegnet) SelectMostRecentRatesBeforeHeight(ctx context.Context, tx Query
 		}
 		assets[fat2.StringToTicker(tickerName)] = rateValue
 	}
-	if rows.Err() != nil {
+	if err := rows.Err(); err != nil {
 		return nil, 0, err
 	}
 	return assets, rateHeight, nil
